@@ -454,3 +454,24 @@ Theorem C09_e2e_map_arguments_in_range : forall m : ovf,
      p_chip p <= 3 /\ forall pc wf, In (Pad pc, wf) (p_sent p) -> 1 <= pc <= 72).
 Proof. intros m. split; [exact (adc_view_chan unit (fun _ g => g) m)|exact (reasm_e2e_args m)]. Qed.
 Print Assumptions C09_e2e_map_arguments_in_range.
+
+(* ---- the matrix handed to the Cholesky factorisation of wire deconvolution (deconvolution/wires.rs: a_matrix,
+   `cholesky_in_place(..).unwrap()`), for the factors regenerated from the source and EVERY block length:
+   symmetric and positive definite over the reals, x^T A x >= 0.6 |x|^2.  (The binary64 factorisation itself is
+   measured on the implementation for all 256 block lengths: rel17block.) *)
+From Coq Require Import Reals List.
+From AG Require Signal.CrossTalk.
+
+Theorem C09_crosstalk_band_lower_bound : forall (a0 a1 a2 a3 a4 : R) (l : list R),
+  (CrossTalk.qform a0 a1 a2 a3 a4 l >= CrossTalk.margin a0 a1 a2 a3 a4 * CrossTalk.sumsq l)%R.
+Proof. exact CrossTalk.qform_lower_bound. Qed.
+Print Assumptions C09_crosstalk_band_lower_bound.
+
+Theorem C09_crosstalk_matrix_positive_definite :
+  (forall i j, CrossTalk.crosstalk_entry i j = CrossTalk.crosstalk_entry j i) /\
+  (forall l : list R, (CrossTalk.crosstalk_qform l >= 6 / 10 * CrossTalk.sumsq l)%R) /\
+  (forall l : list R, ~ Forall (fun x => x = 0%R) l -> (0 < CrossTalk.crosstalk_qform l)%R).
+Proof.
+  exact (conj CrossTalk.crosstalk_symmetric (conj CrossTalk.crosstalk_lower_bound CrossTalk.crosstalk_positive_definite)).
+Qed.
+Print Assumptions C09_crosstalk_matrix_positive_definite.
